@@ -662,3 +662,9 @@ def main(run: core.Run) -> None:
             'spacings, all no-blank pairs with node counts (2,<=1) and (<=1,2) over all four literals, and all (2,2) pairs over '
             f'the literals {LITS_R}. Not enumerated: (2,2) pairs involving the literals 1 and 1,000, and spaced renderings of '
             '2-node operands in pairs (they are covered as scalar/unary operands).')
+        run.caps_hit.append(
+            f'chains: a, b and c range over the <= 1-node texts over the literals {LITS_R} (24 texts each, all 16 operator '
+            'pairs, three chain shapes) instead of c over all 80 <= 1-node texts (2.2 M chains, outside the budget).')
+        run.caps_hit.append(
+            'attached operands: every <= 1-node text (both spacings) attached in 3 contexts x every <= 1-node no-blank partner; '
+            '2-node texts are attached only against 2 scalars and unary operators.')
